@@ -205,3 +205,8 @@ package fsloop
 //@   trace dynamic.* as CALLBACK
 //@   trace_ensures err == nil : !RECURSE
 //@   trace_ensures err == nil : !CALLBACK
+// every entry gets its turn: a file is handed to a callback, a directory other than "." and ".."
+// is descended into (whatever its name looks like)
+//@   trace FileInfo.IsDir as ISDIR bind isdir
+//@   loop 1 trace_step !isdir : CALLBACK
+//@   loop 1 trace_step isdir && Name($v) != "." && Name($v) != ".." : RECURSE
